@@ -38,7 +38,37 @@ def tasks(tier, seed):
             t.append(('graphs4x', 4, 4, ''.join(kinds), sl, 7))
     for shard in range(16):
         t.append(('names', shard, 16, tier))
+    for name in BIG: t.append(('big', name, tier))
     return t
+
+
+# graphs beyond every small-integer width: fan-out, fan-in, depth and node count above 256 (and 65536 nodes in thorough)
+BIG = ['star', 'star_dff', 'funnel', 'chain', 'ladder', 'grid']
+
+
+def big_graph(name, K):
+    """(kinds, edges, origin sets) - origins are chosen so that the cone includes / excludes the wide or deep part"""
+    if name in ('star', 'star_dff'):      # one node read by K nodes, itself fed by a source
+        kinds = 'c' + ('d' if name == 'star_dff' else 'c') + 'c' * K
+        edges = [(0, 1, 0)] + [(1, 2 + i, 0) for i in range(K)]
+        return kinds, edges, [[2 + K - 1], [2, 2 + K // 2], [1], [0]]
+    if name == 'funnel':                  # K sources into the pins of one node
+        kinds = 'c' * K + 'cc'
+        edges = [(i, K, i) for i in range(K)] + [(K, K + 1, 0)]
+        return kinds, edges, [[K + 1], [K], [0, K - 1]]
+    if name == 'chain':                   # K levels
+        kinds = 'c' * (K + 1)
+        return kinds, [(i, i + 1, 0) for i in range(K)], [[K], [K // 2], [0]]
+    if name == 'ladder':                  # two chains with rungs: every node has fan-in 2, depth K
+        kinds = 'c' * (2 * K)
+        edges = []
+        for i in range(1, K):
+            edges += [(2 * (i - 1), 2 * i, 0), (2 * (i - 1) + 1, 2 * i, 1), (2 * (i - 1), 2 * i + 1, 0), (2 * (i - 1) + 1, 2 * i + 1, 1)]
+        return kinds, edges, [[2 * K - 1], [K]]
+    if name == 'grid':                    # many nodes, shallow: K independent 2-node chains
+        kinds = 'c' * (2 * K)
+        return kinds, [(2 * i, 2 * i + 1, 0) for i in range(K)], [[2 * K - 1], [1, 3]]
+    raise KeyError(name)
 
 
 # ---------------------------------------------------------------- graphs
@@ -106,7 +136,9 @@ def check_graph(res, case):
     kinds, edges, shift = case['kinds'], [tuple(e) for e in case['edges']], case['shift']
     n = len(kinds)
     res.evals += 1
-    key = f'C17/topo/{kinds}/{"".join(f"{d}{r}{p}" for d, r, p in edges)}{"s" if shift else ""}'
+    key = f'C17/topo/{kinds}/{"".join(f"{d}{r}{p}" for d, r, p in edges)}{"s" if shift else ""}' if 'big' not in case else f'C17/topo/big-{case["big"][0]}-{case["big"][1]}'
+    import sys
+    if sys.getrecursionlimit() < 20000: sys.setrecursionlimit(20000)
     try:
         c, nodes = build_graph(kinds, edges, shift)
         n_in = [0] * n; n_out = [0] * n
@@ -122,14 +154,18 @@ def check_graph(res, case):
             for d, r, p in edges:
                 if not is_state(kinds[r]) and pos[d] > pos[r]:
                     res.violation(key + '/forward-order', case, f'driver {d} after reader {r}: {order}')
-            if any(pos[s] > pos[o] for s in src for o in range(n) if o not in src):
+            srcset = set(src)
+            if len(srcset) < n and max(pos[s] for s in src) > min(pos[o] for o in range(n) if o not in srcset):
                 res.violation(key + '/forward-sources-first', case, f'sources {src} not first: {order}')
         # ---- levels
         lv = {}
+        preds_of = {i: [] for i in range(n)}
+        succ_edges = {i: [] for i in range(n)}
+        for e in edges: preds_of[e[1]].append(e[0]); succ_edges[e[0]].append(e)
         def level(i, depth=0):
             if i in lv: return lv[i]
             if n_in[i] == 0 or is_state(kinds[i]): lv[i] = 0
-            else: lv[i] = 1 + max(level(d) for d, r, p in edges if r == i)
+            else: lv[i] = 1 + max(level(d) for d in preds_of[i])
             return lv[i]
         got = [(x.index, int(l)) for x, l in c.topological_order_with_level()]
         if sorted(x for x, _ in got) != list(range(n)):
@@ -146,8 +182,8 @@ def check_graph(res, case):
             lpos = {e: i for i, e in enumerate(lines)}
             for e in edges:
                 if is_state(kinds[e[1]]): continue
-                for f in edges:
-                    if f[0] == e[1] and lpos[e] > lpos[f]:
+                for f in succ_edges[e[1]]:
+                    if lpos[e] > lpos[f]:
                         res.violation(key + '/lines-order', case, f'line {e} after its successor {f}')
         # ---- reversed order
         rorder = [x.index for x in c.reversed_topological_order()]
@@ -158,14 +194,15 @@ def check_graph(res, case):
             for d, r, p in edges:
                 if not is_state(kinds[d]) and rpos[r] > rpos[d]:
                     res.violation(key + '/reverse-order', case, f'reader {r} after driver {d}: {rorder}')
-            if any(rpos[s] > rpos[o] for s in snk for o in range(n) if o not in snk):
+            snkset = set(snk)
+            if len(snkset) < n and max(rpos[s] for s in snk) > min(rpos[o] for o in range(n) if o not in snkset):
                 res.violation(key + '/reverse-sinks-first', case, f'sinks {snk} not first: {rorder}')
-        res.sig((kinds, edges, shift, tuple(order), tuple(rorder)))
+        res.sig((kinds, edges, shift, tuple(order), tuple(rorder)) if 'big' not in case else tuple(case['big']))
         # ---- fan-in for all origin sets
         all_comb = all(k == 'c' for k in kinds)
-        preds = {i: [d for d, r, p in edges if r == i] for i in range(n)}
-        for mask in range(1, 1 << n):
-            origins = [i for i in range(n) if (mask >> i) & 1]
+        preds = preds_of
+        for mask in (range(1, 1 << n) if 'origin_sets' not in case else range(len(case['origin_sets']))):
+            origins = [i for i in range(n) if (mask >> i) & 1] if 'origin_sets' not in case else list(case['origin_sets'][mask])
             any_set = set(origins); stack = list(origins)
             while stack:
                 u = stack.pop()
@@ -330,6 +367,11 @@ def run_task(task):
             case = {'kind': 'graph', 'kinds': kinds, 'edges': [list(e) for e in edges], 'shift': shift}
             check_graph(res, case)
             if len(res.samples) < 1 and len(edges) >= 2: res.samples.append(case)
+    elif task[0] == 'big':
+        for K in ((300,) if task[2] == 'quick' or task[1] in ('ladder',) else (300, 70000 if task[1] == 'grid' else 1000)):
+            kinds, edges, origin_sets = big_graph(task[1], K)
+            check_graph(res, {'kind': 'graph', 'kinds': kinds, 'edges': [list(e) for e in edges], 'shift': False, 'origin_sets': origin_sets, 'big': [task[1], K]})
+            res.count('big_graphs')
     else:
         shard, nsh, tier = task[1], task[2], task[3]
         for pi, pool in enumerate(name_pools()):
@@ -354,7 +396,7 @@ def replay(case):
 
 
 def finish(agg, tier):
-    need = ['graphs_with_unconnected_inpin', 'graphs_with_unconnected_outpin', 'nested_results']
+    need = ['graphs_with_unconnected_inpin', 'graphs_with_unconnected_outpin', 'nested_results', 'big_graphs']
     missing = [k for k in need if not agg.counters.get(k)]
     if missing: raise common.HarnessError(f'vacuity guard: {missing} zero')
     return {}
